@@ -1,0 +1,34 @@
+//go:build verif
+
+// Copyright IBM Corp. 2013, 2026
+// SPDX-License-Identifier: MPL-2.0
+
+package serf
+
+import "time"
+
+// This file exists only in builds with the "verif" tag. It exports
+// constructors for the two event coalescers so that an external harness can
+// drive the real coalesceLoop with the real coalescer implementations. It
+// changes no behaviour.
+
+// VerifMemberCoalescedCh returns the input channel of a member-event
+// coalescing stage built exactly as Create builds it.
+func VerifMemberCoalescedCh(outCh chan<- Event, shutdownCh <-chan struct{},
+	coalescePeriod, quiescentPeriod time.Duration) chan<- Event {
+	c := &memberEventCoalescer{
+		lastEvents:   make(map[string]EventType),
+		latestEvents: make(map[string]coalesceEvent),
+	}
+	return coalescedEventCh(outCh, shutdownCh, coalescePeriod, quiescentPeriod, c)
+}
+
+// VerifUserCoalescedCh returns the input channel of a user-event coalescing
+// stage built exactly as Create builds it.
+func VerifUserCoalescedCh(outCh chan<- Event, shutdownCh <-chan struct{},
+	coalescePeriod, quiescentPeriod time.Duration) chan<- Event {
+	c := &userEventCoalescer{
+		events: make(map[string]*latestUserEvents),
+	}
+	return coalescedEventCh(outCh, shutdownCh, coalescePeriod, quiescentPeriod, c)
+}
